@@ -9,7 +9,13 @@ use lightning_signer::chain::tracker::ChainTracker;
 use lightning_signer::channel::{ChannelBase, ChannelId, CommitmentType};
 use lightning_signer::lightning::types::payment::PaymentHash;
 use lightning_signer::monitor::ChainMonitor;
-use lightning_signer::node::Node;
+use lightning_signer::node::{Node, NodeConfig, NodeServices};
+use lightning_signer::persist::Persist;
+use lightning_signer::policy::simple_validator::SimpleValidatorFactory;
+use lightning_signer::signer::derive::KeyDerivationStyle;
+use lightning_signer::util::clock::ManualClock;
+use vls_persist::kvv::memory::MemoryKVVStore;
+use vls_persist::kvv::{JsonFormat, KVVPersister};
 use lightning_signer::tx::tx::{CommitmentInfo2, HTLCInfo2};
 use lightning_signer::txoo::proof::{ProofType, TxoProof};
 use lightning_signer::util::test_utils::*;
@@ -38,14 +44,35 @@ pub const SR: u64 = 17; // sweep of our to_remote output of UR
 pub const JR: u64 = 18; // justice spend of the counterparty's to_local output of UR
 pub const UN: u64 = 19; // counterparty commitment that pays us nothing (no to_remote output): nothing of ours to sweep
 pub const X0: u64 = 20; // unrelated transactions X0..X0+9
+pub const UP: u64 = 31; // the counterparty's PREVIOUS, not yet revoked commitment (number 22) with an HTLC we offered
+pub const SP: u64 = 32; // sweep of our to_remote output of UP
+pub const TP: u64 = 33; // our timeout claim of the HTLC output of UP
+pub const VP: u64 = 34; // spend of that claim's output
 
 /// Deliver a block connection the way the real front end does: compact proof, or — when requested, or
 /// when the compact filter has a false positive for a watched outpoint (`TxoProof::verify` refuses the
 /// filter proof) — streamed (`block_chunk` + `ProofType::ExternalBlock`).  May panic (caller catches).
+/// Compact proof as a real follower builds it (`TxoProof::prove`): the SPV part contains only the transactions
+/// matched by the watches the signer reports (`ForwardWatches` for a connection, `ReverseWatches` for a
+/// disconnection) and their descendants.  Every second block (by hash) gets such a proof, the others a proof with
+/// all transactions of the block.
+pub fn compact_proof(tracker: &ChainTracker<ChainMonitor>, block: &Block, prev_fh: &lightning_signer::bitcoin::hash_types::FilterHeader, height: u32, reverse: bool) -> TxoProof {
+    let base = TxoProof::prove_unchecked(block, prev_fh, height);
+    if block.block_hash().to_byte_array()[1] % 2 == 0 {
+        return base;
+    }
+    let (txids, outpoints) = if reverse { tracker.get_all_reverse_watches() } else { tracker.get_all_forward_watches() };
+    let spv = lightning_signer::txoo::spv::SpvProof::build(block, &txids, &outpoints).0;
+    match &base.proof {
+        ProofType::Filter(f, _) => TxoProof { attestations: base.attestations.clone(), proof: ProofType::Filter(f.clone(), spv) },
+        _ => base,
+    }
+}
+
 pub fn deliver_add(tracker: &mut ChainTracker<ChainMonitor>, block: &Block, want_streamed: bool) -> Result<bool, lightning_signer::chain::tracker::Error> {
     let tip = tracker.tip().clone();
     let h = tracker.height();
-    let proof = TxoProof::prove_unchecked(block, &tip.1, h + 1);
+    let proof = compact_proof(tracker, block, &tip.1, h + 1, false);
     let secp = lightning_signer::bitcoin::secp256k1::Secp256k1::new();
     let watches = tracker.get_all_forward_watches().1;
     let zero = tip.1.to_byte_array().iter().all(|x| *x == 0);
@@ -61,9 +88,18 @@ pub fn deliver_add(tracker: &mut ChainTracker<ChainMonitor>, block: &Block, want
 
 /// The same for the disconnection of the tip `block`.
 pub fn deliver_remove(tracker: &mut ChainTracker<ChainMonitor>, block: &Block, want_streamed: bool) -> Result<bool, lightning_signer::chain::tracker::Error> {
-    let prev = tracker.headers()[0].clone();
+    // the previous headers as the tracker remembers them; if its window is exhausted the request names the parent by
+    // hash only (the tracker then answers ReorgTooDeep unless deep reorgs are allowed)
+    let prev = match tracker.headers().get(0) {
+        Some(p) => p.clone(),
+        None => {
+            let mut h = block.header;
+            h.prev_blockhash = lightning_signer::bitcoin::BlockHash::all_zeros();
+            lightning_signer::chain::tracker::Headers(h, lightning_signer::bitcoin::hash_types::FilterHeader::all_zeros())
+        }
+    };
     let h = tracker.height();
-    let proof = TxoProof::prove_unchecked(block, &prev.1, h);
+    let proof = compact_proof(tracker, block, &prev.1, h, true);
     let secp = lightning_signer::bitcoin::secp256k1::Secp256k1::new();
     let watches = tracker.get_all_reverse_watches().1;
     let zero = prev.1.to_byte_array().iter().all(|x| *x == 0);
@@ -90,6 +126,16 @@ pub fn stream_block(tracker: &mut ChainTracker<ChainMonitor>, block: &Block) {
         if c <= off { continue; }
         tracker.block_chunk(hash, off as u32, &bytes[off..c]).unwrap();
         off = c;
+    }
+}
+
+fn world_services(persister: Arc<dyn Persist>) -> NodeServices {
+    NodeServices {
+        validator_factory: Arc::new(SimpleValidatorFactory::new()),
+        starting_time_factory: make_genesis_starting_time_factory(lightning_signer::bitcoin::Network::Testnet),
+        persister,
+        clock: Arc::new(ManualClock::new(std::time::Duration::from_secs(1_700_000_000))),
+        trusted_oracle_pubkeys: vec![],
     }
 }
 
@@ -145,6 +191,8 @@ pub struct World {
     pub cb: u32,
     pub base_height: u32,
     pub filter_false_positives: u32,
+    pub persister: Arc<dyn Persist>,
+    pub seed: [u8; 32],
     /// per closing tx: (index of the output the harness built as ours, HTLC output indices it built)
     pub built: BTreeMap<u64, (Option<u32>, Vec<u32>)>,
     /// spender id -> [(vout of the closing tx it spends, input index)] for the tracked non-ours outputs
@@ -179,7 +227,17 @@ impl World {
             "l" => CommitmentType::Legacy,
             _ => CommitmentType::StaticRemoteKey,
         };
-        let (node, channel_id) = init_node_and_channel(TEST_NODE_CONFIG, TEST_SEED[1], setup.clone());
+        // a persisting node (so that the world can be restarted through `Node::restore_node`), set up exactly like
+        // the repo's `init_node_and_channel` otherwise
+        let persister: Arc<dyn Persist> = Arc::new(KVVPersister(MemoryKVVStore::new([5u8; 16]), JsonFormat));
+        let mut seed = [0u8; 32];
+        seed.copy_from_slice(&hex::decode(TEST_SEED[1]).unwrap());
+        let config = NodeConfig { network: lightning_signer::bitcoin::Network::Testnet, key_derivation_style: KeyDerivationStyle::Native, use_checkpoints: false, allow_deep_reorgs: false };
+        let node = Arc::new(Node::new(config, &seed, vec![], world_services(persister.clone())));
+        persister.new_node(&node.get_id(), &config, &*node.get_state()).unwrap();
+        persister.new_tracker(&node.get_id(), &node.get_tracker()).unwrap();
+        node.add_allowlist(&[]).unwrap();
+        let channel_id = init_channel(setup.clone(), node.clone());
         // what sign_onchain_tx does for the funding inputs
         node.with_channel(&channel_id, |chan| {
             chan.monitor.add_funding_inputs(&funding_tx);
@@ -190,10 +248,14 @@ impl World {
             let mut tracker = node.get_tracker();
             let inputs = funding_tx.input.iter().map(|i| i.previous_output).collect();
             tracker.add_listener_watches(&funding_outpoint, inputs);
+            persister.update_tracker(&node.get_id(), &tracker).unwrap();
         }
         // holder commitment 23 with our output and two offered HTLCs, known to the enforcement state
         let commit_num = 23u64;
         let cp_point = lightning_signer::util::test_utils::key::make_test_pubkey(12);
+        let prev_point = lightning_signer::util::test_utils::key::make_test_pubkey(14);
+        let (up_to_holder, up_to_cp) = (1_400_000u64, 1_500_000u64);
+        let we_offered = vec![HTLCInfo2 { value_sat: 50_000, payment_hash: PaymentHash([7; 32]), cltv_expiry: 130 }];
         let (to_holder, to_cp, feerate) = (1_000_000u64, 1_900_000u64, 1000u32);
         let offered = vec![
             HTLCInfo2 { value_sat: 30_000, payment_hash: PaymentHash([1; 32]), cltv_expiry: 100 },
@@ -201,9 +263,15 @@ impl World {
         ];
         node.with_channel(&channel_id, |chan| {
             chan.set_next_holder_commit_num_for_testing(commit_num + 1);
+            // the counterparty has signed 22 (previous, not yet revoked) and 23 (current)
+            chan.set_next_counterparty_commit_num_for_testing(commit_num, prev_point);
             chan.set_next_counterparty_commit_num_for_testing(commit_num + 1, cp_point);
+            chan.set_next_counterparty_revoke_num_for_testing(commit_num - 1);
+            chan.enforcement_state.previous_counterparty_commit_info =
+                Some(CommitmentInfo2::new(true, up_to_holder, up_to_cp, vec![], we_offered.clone(), feerate));
             chan.enforcement_state.current_holder_commit_info =
                 Some(CommitmentInfo2::new(false, to_cp, to_holder, offered.clone(), vec![], feerate));
+            persister.update_channel(&node.get_id(), chan).unwrap();
             Ok(())
         })
         .unwrap();
@@ -218,6 +286,21 @@ impl World {
             .transaction
             .clone();
         let uc_our = uc.output.iter().position(|o| o.value.to_sat() == uc_to_holder).expect("to_remote output") as u32;
+        let up = node
+            .with_channel(&channel_id, |chan| {
+                let oic = lightning_signer::channel::Channel::htlcs_info2_to_oic(&vec![], &we_offered);
+                Ok(chan.make_counterparty_commitment_tx(&prev_point, commit_num - 1, feerate, up_to_holder, up_to_cp, oic))
+            })
+            .unwrap()
+            .trust()
+            .built_transaction()
+            .transaction
+            .clone();
+        let up_our = up.output.iter().position(|o| o.value.to_sat() == up_to_holder).expect("to_remote output") as u32;
+        let up_h = up.output.iter().position(|o| o.value.to_sat() == 50_000).expect("htlc output") as u32;
+        let sp = mk_tx(vec![OutPoint::new(up.compute_txid(), up_our)], 1, 27);
+        let tp = mk_tx(vec![OutPoint::new(up.compute_txid(), up_h)], 1, 28);
+        let vp = mk_tx(vec![OutPoint::new(tp.compute_txid(), 0)], 1, 29);
         let un = node
             .with_channel(&channel_id, |chan| Ok(chan.make_counterparty_commitment_tx(&cp_point, commit_num, feerate, 0, 2_975_000, vec![])))
             .unwrap()
@@ -260,6 +343,10 @@ impl World {
         txs.insert(UC, uc);
         txs.insert(UR, ur);
         txs.insert(UN, un);
+        txs.insert(UP, up);
+        txs.insert(SP, sp);
+        txs.insert(TP, tp);
+        txs.insert(VP, vp);
         txs.insert(SR, sr);
         txs.insert(JR, jr);
         txs.insert(S, mk_tx(vec![OutPoint::new(utxid, our)], 1, 15));
@@ -282,7 +369,7 @@ impl World {
             ids.insert(t.compute_txid(), *k);
         }
         let base_height = node.get_tracker().height();
-        World { node, channel_id, funding_outpoint, txs, ids, blocks: vec![], cb: 0, base_height, filter_false_positives: 0, built: BTreeMap::from([(U, (Some(our), vec![h1.min(h2), h1.max(h2)])), (UC, (Some(uc_our), vec![])), (UR, (Some(ur_our), vec![ur_local])), (UN, (None, vec![]))]), htlc_spends: BTreeMap::from([(T1, vec![(h1, 0)]), (T2, vec![(h2, 0)]), (T12, vec![(h1, 0), (h2, 1)]), (JR, vec![(ur_local, 0)])]), ctype: ct.to_string() }
+        World { persister, seed, node, channel_id, funding_outpoint, txs, ids, blocks: vec![], cb: 0, base_height, filter_false_positives: 0, built: BTreeMap::from([(U, (Some(our), vec![h1.min(h2), h1.max(h2)])), (UC, (Some(uc_our), vec![])), (UR, (Some(ur_our), vec![ur_local])), (UN, (None, vec![])), (UP, (Some(up_our), vec![up_h]))]), htlc_spends: BTreeMap::from([(T1, vec![(h1, 0)]), (T2, vec![(h2, 0)]), (T12, vec![(h1, 0), (h2, 1)]), (JR, vec![(ur_local, 0)]), (TP, vec![(up_h, 0)])]), ctype: ct.to_string() }
     }
 
     /// tx tokens `T<id>:<inputs>:<nOut>:<kind>`; the kind of the two closing transactions comes from
@@ -303,7 +390,7 @@ impl World {
             // is compared with it after every block that confirms one of them (`our-output-not-recognised`)
             let mut kinds: BTreeMap<u64, String> = BTreeMap::new();
             kinds.insert(M, "p".to_string());
-            for id in [U, UC, UR, UN] {
+            for id in [U, UC, UR, UN, UP] {
                 let (our, hs) = w.built[&id].clone();
                 let our = our.map(|x| x.to_string()).unwrap_or("-".into());
                 let hs: Vec<String> = hs.iter().map(|x| x.to_string()).collect();
@@ -349,6 +436,18 @@ impl World {
 
     pub fn op_str(&self, o: &OutPoint) -> String {
         op_str_ids(&self.ids, o)
+    }
+
+    /// crash + `Node::restore_node` from the persister
+    pub fn restart(&mut self) -> StepResult {
+        let (node_id, entry) = self.persister.get_nodes().unwrap().into_iter().next().unwrap();
+        let seed = self.seed;
+        let p = self.persister.clone();
+        match catch_unwind(AssertUnwindSafe(|| Node::restore_node(&node_id, entry, &seed, world_services(p)))) {
+            Ok(Ok(n)) => { self.node = n; StepResult::Ok }
+            Ok(Err(e)) => StepResult::Err(format!("{:?}", e)),
+            Err(e) => StepResult::Panic(panic_msg(e)),
+        }
     }
 
     pub fn monitor(&self) -> ChainMonitor {
@@ -477,6 +576,7 @@ impl World {
             Ok(Err(e)) => StepResult::Err(format!("{:?}", e)),
             Ok(Ok(fp)) => {
                 if fp { self.filter_false_positives += 1; }
+                self.persister.update_tracker(&self.node.get_id(), &tracker).unwrap();
                 self.blocks.push(block);
                 StepResult::Ok
             }
@@ -526,6 +626,7 @@ impl World {
             Ok(Err(e)) => StepResult::Err(format!("{:?}", e)),
             Ok(Ok(fp)) => {
                 if fp { self.filter_false_positives += 1; }
+                self.persister.update_tracker(&self.node.get_id(), &tracker).unwrap();
                 self.blocks.pop();
                 StepResult::Ok
             }
@@ -569,10 +670,10 @@ pub fn expected_view(w: &World, chain: &[Vec<u64>]) -> String {
     let fh = height_of(F);
     let ds = if fh.is_some() { None } else { [height_of(D), height_of(D2)].into_iter().flatten().min() };
     let mc = height_of(M);
-    let close = [U, UC, UR, UN].into_iter().find(|c| height_of(*c).is_some());
+    let close = [U, UC, UR, UN, UP].into_iter().find(|c| height_of(*c).is_some());
     let uc = close.and_then(|c| height_of(c));
-    let our_sweeper = |c: u64| if c == U { S } else if c == UC { SC } else { SR };
-    let second_spender = |t: u64, idx: u32| match (t, idx) { (T1, 0) => Some(V1), (T2, 0) => Some(V2), (T12, 0) => Some(V12A), (T12, 1) => Some(V12B), _ => None };
+    let our_sweeper = |c: u64| if c == U { S } else if c == UC { SC } else if c == UP { SP } else { SR };
+    let second_spender = |t: u64, idx: u32| match (t, idx) { (T1, 0) => Some(V1), (T2, 0) => Some(V2), (T12, 0) => Some(V12A), (T12, 1) => Some(V12B), (TP, 0) => Some(VP), _ => None };
     let mut tracked: Vec<((u64, u32), bool)> = vec![((0, 1), false), ((0, 2), false)]; // (outpoint, spent on chain)
     let spent_input = |id: u64, inp: (u64, u32)| -> bool {
         order.iter().any(|t| *t != id && w.txs[t].input.iter().any(|i| (w.ids.get(&i.previous_output.txid).cloned().unwrap_or(999), i.previous_output.vout) == inp))
